@@ -16,7 +16,8 @@ git -C "$wt" apply ${SEED_DIR:-/tmp/seed}/$id.patch.diff || { echo "CONFIRM $id:
 (cd "$wt" && go test "${flags[@]}" > /tmp/confirm-$id.patched.log 2>&1); patched=$?
 rm "$wt/seeded_demo_test.go"
 for try in 1 2 3 4 5 6 7 8 9 10 11 12; do
-  (cd "$wt" && go test -json -vet=off -count=1 -timeout 25m ./... > /tmp/confirm-$id.suite.json 2>&1)
+  # a private network namespace (loopback only) keeps 127.0.0.1:1234 free of other suites running on this machine
+  (cd "$wt" && unshare -rn sh -c 'ip link set lo up; exec go test -json -vet=off -count=1 -timeout 25m ./...' > /tmp/confirm-$id.suite.json 2>&1)
   # the repository suite binds 127.0.0.1:1234; another suite running at the same time makes it panic: retry
   grep -q "address already in use" /tmp/confirm-$id.suite.json || break
   sleep $((RANDOM % 20 + 5))
